@@ -442,6 +442,26 @@ impl Prop for Text {
                 pats.push(e.to_string());
             }
         }
+        if tier == Tier::Thorough {
+            // all patterns of length 4 over {ordinary char, LF, space}
+            let mut cur = vec![String::new()];
+            for _ in 0..4 {
+                let mut nx = vec![];
+                for p in &cur {
+                    for a in ['x', '\n', ' '] {
+                        let mut q = p.clone();
+                        q.push(a);
+                        nx.push(q);
+                    }
+                }
+                cur = nx;
+            }
+            for q in cur {
+                if !pats.iter().any(|p| *p == q) {
+                    pats.push(q);
+                }
+            }
+        }
         let mut v = vec![];
         let ords = |p: &str| p.chars().filter(|c| *c == 'x' || *c == 'W').count();
         for o in &pats {
@@ -454,6 +474,12 @@ impl Prop for Text {
                     for alg in ALGS {
                         // the long extras only against each other and the short ones in the quick tier
                         if tier == Tier::Thorough && o.len() + n.len() > 7 && alg != Algorithm::Myers && tok != Tok::Lines && tok != Tok::Chars {
+                            continue;
+                        }
+                        // the length-4 patterns: lines / words / chars only, and only against patterns of length <= 4
+                        if tier == Tier::Thorough && (o.len() == 4 || n.len() == 4) && !EXTRA.contains(&o.as_str()) && !EXTRA.contains(&n.as_str())
+                            && (matches!(tok, Tok::UnicodeWords | Tok::Graphemes) || o.len() > 4 || n.len() > 4 || (alg == Algorithm::Patience && o.len() + n.len() == 8))
+                        {
                             continue;
                         }
                         let overrides: Vec<Option<bool>> = if self.0 == Which::C14 && alg == Algorithm::Myers && o.len() + n.len() <= 4 {
@@ -521,7 +547,7 @@ impl Prop for Text {
         };
         Meta {
             functions,
-            bounds: format!("texts = every pattern of length <= {} over {{ordinary char, space, LF, CR, punctuation}} plus {} longer patterns (up to 8 characters / 5 tokens, some with two-unit characters), all ordered pairs, x 5 tokenizers x 3 algorithms; ordinary characters are symbolic (unbounded alphabet), classes are concrete; the element type is SymTxt, so the generic text layer runs symbolically", match tier { Tier::Quick => 2, Tier::Thorough => 3 }, EXTRA.len()),
+            bounds: format!("texts = every pattern of length <= {} over {{ordinary char, space, LF, CR, punctuation}} (thorough: also every pattern of length 4 over {{ordinary char, LF, space}} for the line / word / char tokenizers) plus {} longer patterns (up to 8 characters / 5 tokens, some with two-unit characters), all ordered pairs, x 5 tokenizers x 3 algorithms; ordinary characters are symbolic (unbounded alphabet), classes are concrete; the element type is SymTxt, so the generic text layer runs symbolically", match tier { Tier::Quick => 2, Tier::Thorough => 3 }, EXTRA.len()),
             outside: "the tokenizers of str and [u8] themselves (decided by Kani in C06; unicode words / graphemes of the real types are not decided); longer texts; the >100-token path of TextDiffConfig::diff is covered separately (C14 skeleton family)".into(),
             assumptions: vec![
                 "SymTxt's own tokenizers partition the text (checked on every path) and follow the documented shapes; they stand in for the str/[u8] tokenizers, which the generic layer only calls through the DiffableStr trait".into(),
